@@ -86,7 +86,11 @@ Definition res_eqb {A} `{Eqb A} (a b : res A) : bool :=
 #[export] Instance Eqb_res {A} `{Eqb A} : Eqb (res A) := res_eqb.
 
 Inductive stage := Anneal | Slice | SliceReconf | Reconf | CompReconf.
-Inductive objective := ObjBasic | ObjLimit | ObjCompressed | ObjCustom.
+(* ObjLimit ensures: LimitObjective; `ensures` says whether its __call__ starts with
+   ensure_basic_quantities_are_computed(trial) like the other exact objectives do.  The pinned
+   code does not (ensures = false, finding limit-objective-keyerror); the harness reads the flag
+   off the source of LimitObjective.__call__ on every run. *)
+Inductive objective := ObjBasic | ObjLimit (ensures : bool) | ObjCompressed | ObjCustom.
 Inductive errmode := ErrWarn | ErrRaise | ErrIgnore.
 
 (* which option sets were given to HyperOptimizer (and the class attribute `compressed`) *)
@@ -180,11 +184,12 @@ Definition score_fn (o : objective) (tr : trial T) : res (trial T * pyf) :=
         | Some f, Some w, Some z => Ok (tr', score_basic f w z)
         | _, _, _ => RaiseErr
         end)
-  | ObjLimit =>                                          (* no ensure_basic_... here *)
-      match t_tree tr with
-      | None => RaiseErr
-      | Some t => Ok (tr, score_limit t)
-      end
+  | ObjLimit ensures =>
+      rbind (if ensures then ensure_basic tr else Ok tr) (fun tr' =>
+        match t_tree tr' with
+        | None => RaiseErr
+        | Some t => Ok (tr', score_limit t)
+        end)
   | ObjCompressed =>
       match t_tree tr with
       | None => RaiseErr
